@@ -134,6 +134,7 @@ IsEv(op) == l <= Len(T) /\ Ev.op = op /\ Ev.out # "panic"
 (* the specification (a recorded finding, see known_findings.json) reproduces the observed result        *)
 (* inside a Par block (goroutines running concurrently) every mismatch contradicts C18: "every result equals the one obtained sequentially" *)
 Tag(S, dev) == {<<t[1], t[2], t[3], dev>> : t \in S} \cup (IF "par" \in DOMAIN Ev THEN {<<t[1], "C18", t[3], dev>> : t \in S} ELSE {})
+               \cup (IF "c" \in DOMAIN Ev THEN {<<t[1], "C19", t[3], dev>> : t \in S} ELSE {})
 
 (* C10, stated directly: drivers tag the variants (aliasing shapes, receiver histories) of one operation *)
 (* instance with the same "inst"; every variant must leave the same outcome and receiver as the first.  *)
@@ -342,9 +343,8 @@ BinOfEv == [k |-> Ev.fk, neg |-> Ev.fneg, m |-> FromStr(Ev.fm), q |-> Ev.fe2]
 BinOfRet == [k |-> Ev.ret.k, neg |-> Ev.ret.neg, m |-> IF Ev.ret.k = "fin" THEN FromStr(Ev.ret.m) ELSE Zero, q |-> IF Ev.ret.k = "fin" THEN Ev.ret.e2 ELSE 0]
 
 (* binary -> decimal: exact when the precision can hold the expansion, else within n units (1 for SetFloat64, 64 for SetFloat) *)
-SetBinStep(b, pdef, n, tagp) ==
-  LET z == Pre(Ev.z)
-      w == OpSetBin(z, b, IF z.prec = 0 /\ pdef = 0 THEN Ev.post[Ev.z].prec ELSE pdef)
+SetBinStepZ(z, b, pdef, n, tagp) ==
+  LET w == OpSetBin(z, b, IF z.prec = 0 /\ pdef = 0 THEN Ev.post[Ev.z].prec ELSE pdef)
       g == Got(Ev.z)
       extra == IF b.k = "fin" /\ Ev.out = "ok" /\ Canonical(Ev.post[Ev.z]) /\ g.prec >= 1
                THEN (IF g.form = "finite" /\ BinSetOK(z, b, g, n) THEN {} ELSE {<<l, "C15", "value">>})
@@ -354,6 +354,7 @@ SetBinStep(b, pdef, n, tagp) ==
                THEN (IF RoundTo(b.neg, BinN(b), BinD(b), IZero, g.prec, g.mode).acc = Exact THEN {tagp \o ":exact"} ELSE {tagp \o ":rounded"}) ELSE {})
   IN StepX(IF z.prec = 0 /\ pdef = 0 THEN [w EXCEPT !.free = w.free \cup {"prec"}] ELSE w, ModeTag \cup tags, extra)
 
+SetBinStep(b, pdef, n, tagp) == SetBinStepZ(Pre(Ev.z), b, pdef, n, tagp)
 TSetFloat64 == IsEv("SetFloat64") /\ SetBinStep(DecodeF64(FromStr(Ev.bits)), 17, 1, "SetFloat64")
 TSetFloat == IsEv("SetFloat") /\ SetBinStep(BinOfEv, 0, 64, "SetFloat")
 
@@ -664,6 +665,11 @@ TCtxNewRat ==
   /\ IsCtx("NewRat")
   /\ LET n == IFromStr(Ev.num)  d == FromStr(Ev.den)  qr == DivMod(n.mag, d)
      IN CtxFactory(IF qr[2] = Zero THEN OpSetInt(CtxNew(Ctx), n.neg, qr[1], Ctx.prec) ELSE OpSetRat(CtxNew(Ctx), n.neg, n.mag, d, Ctx.prec))
+(* the conversions behind a factory are those of C15 / C12 on the fresh Decimal c.New() *)
+TCtxNewFloat64 == IsCtx("NewFloat64") /\ SetBinStepZ(CtxNew(Ctx), DecodeF64(FromStr(Ev.bits)), 17, 1, "Ctx.NewFloat64")
+TCtxNewFloat == IsCtx("NewFloat") /\ SetBinStepZ(CtxNew(Ctx), BinOfEv, 0, 64, "Ctx.NewFloat")
+TCtxNewString == IsCtx("NewString") /\ ParseStepZ(CtxNew(Ctx), ParseLit(Chars(Ev.s), 0), Ev.ret.ok /\ ~Ev.ret.nilres, FALSE)
+TCtxParseDecimal == IsCtx("ParseDecimal") /\ ParseStepZ(CtxNew(Ctx), ParseLit(Chars(Ev.s), Ev.base), Ev.ret.ok /\ ~Ev.ret.nilres, TRUE)
 (* a panic that is not an ErrNaN (nil operand) must propagate out of the context and must not be latched *)
 TCtxNil ==
   /\ l <= Len(T) /\ Ev.op = "Ctx.AddNilY"
@@ -674,6 +680,7 @@ TCtxNil ==
   /\ cov' = Bump({"Ctx.AddNilY:" \o Ev.out})
 CtxNext == TCtxAdd \/ TCtxSub \/ TCtxMul \/ TCtxQuo \/ TCtxFMA \/ TCtxSqrt \/ TCtxNeg \/ TCtxAbs \/ TCtxSet \/ TCtxNew \/ TCtxSetPrec
            \/ TCtxSetMode \/ TCtxErr \/ TCtxNewDec \/ TCtxNewInt64 \/ TCtxNewUint64 \/ TCtxNewInt \/ TCtxNewRat \/ TCtxNil
+           \/ TCtxNewFloat64 \/ TCtxNewFloat \/ TCtxNewString \/ TCtxParseDecimal
 
 TSetMantExp == IsEv("SetMantExp") /\ Step(OpSetMantExp(Pre(Ev.z), Pre(Ev.x), IFromStr(Ev.e)), {})
 TMantExp ==
